@@ -8,7 +8,7 @@ root = os.path.dirname(os.path.dirname(os.path.abspath(__file__)))
 shapes = [
     ("scalars", 3, True, False), ("ints", 5, False, False), ("fixed", 1, False, False), ("bytes", 0, True, True),
     ("nested", 4, True, False), ("repeated", 3, True, True), ("repscalar", 2, False, True), ("maps", 3, True, True), ("node", 3, True, False),
-    ("mapptr", 3, True, True), ("arrays", 0, False, False),
+    ("mapptr", 3, True, True), ("arrays", 0, False, False), ("custom", 2, True, True),
 ]
 def wides(n, tier):
     if n == 0: return [0]
@@ -43,14 +43,14 @@ def units(prefix, harness, desc, covers, reps_q=[0, 1, 2], reps_t=[0, 1, 2, 11],
             us.append(u2)
     return us
 common_assume = [
-    "type shapes are the 11 catalogue structs of harness/proto/types.go (scalars, ints, fixed/float, bytes/array, nested+pointers, repeated, repeated scalars, maps, recursive node, maps of []byte / pointer-to-scalar / pointer-to-message + pointer-held message, byte arrays of 3/6/7/13/14/15 bytes); values are symbolic inside a shape",
+    "type shapes are the 12 catalogue structs of harness/proto/types.go (gogo-style custom type of variable size as a field, followed by other fields, and as repeated elements; scalars, ints, fixed/float, bytes/array, nested+pointers, repeated, repeated scalars, maps, recursive node, maps of []byte / pointer-to-scalar / pointer-to-message + pointer-held message, byte arrays of 3/6/7/13/14/15 bytes); values are symbolic inside a shape",
     "integer fields take full-width symbolic values one field at a time (vfWide), the others range over 0..255 or -128..127, to bound the product of varint size classes",
     "runtime map/slice primitives bound by //go:linkname are modelled by the real signature of the link target (engine builtin.go linkTarget); sync.Pool/atomic.Value are sequential stubs",
     "strings/bytes lengths and element counts are bounded as listed per unit",
     "exploration strategy: results of proto.sizeOfVarint are case-split eagerly (every feasible value is explored; no value is assumed away)",
 ]
 c03 = {"property": "C03", "title": "proto: Unmarshal(Marshal(v)) == v and Size(v) == len(Marshal(v))", "level": "model_checking", "assumptions": common_assume,
-       "outside_claim": ["types outside the catalogue (gogo custom types, Message implementations)", "element counts other than those listed (0..2, thorough also 11: growth of a repeated field past its initial capacity of 10)", "floats: compared by bit pattern"],
+       "outside_claim": ["types outside the catalogue (Message implementations; custom types other than the variable-size one of shape custom)", "element counts other than those listed (0..2, thorough also 11: growth of a repeated field past its initial capacity of 10)", "floats: compared by bit pattern"],
        "units": units("H03", "vfH_c03_shape", "Marshal never fails, Size==len(Marshal), deterministic, round trip", ["done"])}
 c03["units"].insert(0, {"name": "H03-varint64", "desc": "encodeVarint/sizeOfVarint/decodeVarint, zig-zag, LE32/64 on every 64-bit value", "pkg": "./proto", "overlay": ["harness/proto"], "harness": "vfH_c07_scalar", "covers": ["done"]})
 c03["units"].append({"name": "H03-entry", "desc": "length prefixes at the 1-byte/2-byte varint boundary: map entry with string value, map entry with message value, repeated message element, payload length sweeping 116..132", "pkg": "./proto", "overlay": ["harness/proto"], "harness": "vfH_c03_entry",
@@ -100,6 +100,6 @@ for fn, spec in (("C03", c03), ("C16", c16), ("C07", c07)):
     if fn in CAPPED:
         cap_spec(spec)
     if fn == "C03":
-        quick_only(spec, keep=("H03-entry", "H03-scalars", "H03-ints", "H03-bytes", "H03-arrays"))
+        quick_only(spec, keep=("H03-entry", "H03-scalars", "H03-ints", "H03-bytes", "H03-arrays", "H03-custom"))
     json.dump(spec, open(os.path.join(root, "spec", fn + ".json"), "w"), indent=1)
 print("ok")
